@@ -339,7 +339,9 @@ def r6_replaced_joined(prog, rep: Report, pf: PoolFacts):
     it = Interp(prog, client)
     it.run(run_, {None}, th)
     joins = [m for _, m in sorted(set(client.problems)) if "join" in m or "'received'" in m]
-    has_join = any(isinstance(c.func, ast.Attribute) and c.func.attr == "join" for c in calls_in(run_.node))
+    # (the thread's private helpers count as part of the loop: the order client follows them)
+    bodies = [run_.node] + [m.node for m in th.methods.values() if m.name.startswith("_") and not m.name.startswith("__")]
+    has_join = any(isinstance(c.func, ast.Attribute) and c.func.attr == "join" for b_ in bodies for c in calls_in(b_))
     rep.check("C04.R6", run_, "retired-joined", has_join and not joins,
               "the retired worker is joined before its slot in self.procs is overwritten",
               "the retired worker is dropped from self.procs without being joined: " + ("; ".join(joins) or "no join() in the replace loop"),
